@@ -17,7 +17,7 @@ TraceNext ==
            \* a snippet given as the default of the global ConfigMap is unaffected by the option: no keyword applies to it
            kws == IF e.src = "global" THEN {} ELSE KwsOf(e)
            x == Expected(SeqOf(e.text), kws)
-       IN bad' = IF LinesOf(e) = x THEN bad
+       IN bad' = IF LinesOf(e) = x \/ (LinesOf(e) = <<>> /\ MayDrop(SeqOf(e.text), KwsOf(e))) THEN bad
                  ELSE bad \cup {[id |-> e.id, inv |-> IF e.src = "global" /\ Dropped(SeqOf(e.text), KwsOf(e)) THEN "GlobalSnippetFiltered"
                                                ELSE IF Dropped(SeqOf(e.text), kws) THEN "DroppedSnippetEmitted" ELSE "SnippetNotVerbatim",
                                  src |-> e.src]}
